@@ -13,6 +13,20 @@ def _fill(p, k=0):
         p.copy_((torch.sin(i * 0.7 + k) * (0.4 + (i % 5) * 0.1)).to(p.dtype))
 
 
+class IDivMLP(nn.Module):
+    """fc1 -> in-place scalar division of the (possibly quantized) activation -> fc2"""
+
+    def __init__(self, fin=16, hid=12, fout=8):
+        super().__init__()
+        self.fc1 = nn.Linear(fin, hid)
+        self.fc2 = nn.Linear(hid, fout)
+
+    def forward(self, x):
+        h = self.fc1(x)
+        h /= 4.0
+        return self.fc2(h)
+
+
 MODELS = {
     "lin": lambda: nn.Sequential(nn.Linear(16, 8)),
     "mlp": lambda: nn.Sequential(nn.Linear(16, 12), nn.ReLU(), nn.Linear(12, 8)),
@@ -20,8 +34,9 @@ MODELS = {
     "conv": lambda: nn.Sequential(nn.Conv2d(2, 4, 3, padding=1), nn.ReLU(), nn.Conv2d(4, 2, 3)),
     "wide": lambda: nn.Sequential(nn.Linear(160, 6), nn.ReLU(), nn.Linear(6, 4)),
     "w256": lambda: nn.Sequential(nn.Linear(256, 4, bias=False)),
+    "idiv": lambda: IDivMLP(),
 }
-IN_SHAPE = {"lin": (3, 16), "mlp": (3, 16), "ln": (2, 2, 16), "conv": (2, 2, 6, 6), "wide": (3, 160), "w256": (2, 256)}
+IN_SHAPE = {"lin": (3, 16), "mlp": (3, 16), "ln": (2, 2, 16), "conv": (2, 2, 6, 6), "wide": (3, 160), "w256": (2, 256), "idiv": (3, 16)}
 
 
 def build_float(name, dtname):
@@ -42,11 +57,36 @@ def probe_input(name, dtname, k=0):
     return (torch.cos(i * 0.31 + k) * (1.0 + (i % 3) * 0.4) * amp).to(num.DTYPES[dtname])
 
 
-def build_quantized(name, dtname, wname, aname):
+class ClippedAbsmax:
+    pass
+
+
+def custom_optimizer(wname):
+    """A user-defined optimizer of the right family (legitimate non-default argument of quantize())."""
+    from optimum.quanto import AbsmaxOptimizer, MaxOptimizer
+
+    if num.qt(wname).bits == 8:
+        class Clipped(AbsmaxOptimizer):
+            def optimize(self, base, bits, axis=None):
+                return super().optimize(base, bits, axis) * 0.75
+
+        return Clipped()
+
+    class Shrunk(MaxOptimizer):
+        def optimize(self, base, bits, axis):
+            scale, zp = super().optimize(base * 0.75, bits, axis)
+            return scale, zp
+
+    return Shrunk()
+
+
+def build_quantized(name, dtname, wname, aname, optimizer=False):
     from optimum.quanto import quantize
 
     m = build_float(name, dtname)
     kw = {}
+    if optimizer and wname:
+        kw["optimizer"] = custom_optimizer(wname)
     if wname:
         kw["weights"] = num.qt(wname)
     if aname:
